@@ -6,7 +6,7 @@ import pipe_sat
 MAXALL = {"quick": {"segwitv0": 3, "tap": 3, "legacy": 3, "bare": 3},
           "thorough": {"segwitv0": 3, "tap": 3, "legacy": 3, "bare": 3}}
 MAXN = {"quick": {"segwitv0": 4, "tap": 4, "legacy": 4, "bare": 4},
-        "thorough": {"segwitv0": 5, "tap": 5, "legacy": 5, "bare": 5}}
+        "thorough": {"segwitv0": 4, "tap": 4, "legacy": 4, "bare": 4}}
 CTXS = ["segwitv0", "tap", "legacy", "bare"]
 
 
@@ -18,11 +18,10 @@ def run(tier, seed, ctxs=CTXS, wd=None):
 
     def gen(ctx):
         name = "Gen_Ast_%s" % ctx
-        cfg = pipe_sat.gen_cfg(u, ctx, maxnodes=MAXN[tier][ctx], comp=pipe_sat.COMP_STRIDE[tier]["other"], seed=seed) + \
+        cfg = pipe_sat.gen_cfg(u, ctx, maxnodes=MAXN[tier][ctx], comp=pipe_sat.COMP_STRIDE[tier]["other"], seed=seed, nc=pipe_sat.NC_KEEP[tier]["other"]) + \
             ["  MaxAllNodes = %d" % MAXALL[tier][ctx], "  WrapStride = %d" % (1 if tier == "quick" else 2)]
-        write_module(wd, name, "Gen_Ast", pipe_sat.gen_defs(u), cfg)
         out = os.path.join(wd, "cases_%s.ndjson" % ctx)
-        r = tlc(wd, name, name + ".cfg", env={"OUT": out}, workers=1, heap="8g", timeout=3000)
+        r = gen_cached(wd, name, "Gen_Ast", pipe_sat.gen_defs(u), cfg, out)
         g = r.tagged("GEN")
         if not g or not os.path.exists(out):
             log(r.out[-3000:])
